@@ -1,15 +1,526 @@
+//! C19 — unused-declaration lint is exact where usage is known.
+//!
+//! usage:
+//!   c19 gen <seed> <nprojects> <groups_per_project> <out.jsonl>     generate marked projects
+//!   c19 run <projects.jsonl> <workdir> <out.jsonl> <model_cases>     analyse them, extract events
+//!   c19 dump <file.vhd>...                                           debugging aid
+//!
+//! A *project* is a set of unit groups (primary unit + secondary units, each group in its own files) in two
+//! libraries `lib` (ordinary) and `tp` (`is_third_party = true`).  The VHDL text carries markers:
+//!   @D<id>:<kind>:<parent>:<declby>:<elig>@ident    ident declares entity <id> of the group
+//!   @R<id>:<sitekind>@ident                          ident is a reference to entity <id>
+//! which are stripped before the text is given to the analyser; their positions are the oracle's
+//! knowledge of where declarations and references are.
+use serde_json::{json, Value};
+use std::collections::{BTreeMap, HashMap};
+use std::io::{BufRead, Write};
 use std::path::Path;
-use vhdl_lang::{Config, NullMessages, Project};
-fn main() {
-    let files: Vec<String> = std::env::args().skip(1).collect();
+use vhdl_lang::ast::search::{DeclarationItem, FoundDeclaration, SearchState, Searcher};
+use vhdl_lang::{
+    AnyEntKind, Config, Design, EntRef, HasEntityId, NullMessages, Overloaded, Project, Reference, Related, Source,
+    SrcPos, TokenAccess, Type,
+};
+
+#[path = "c19/gen.rs"]
+mod gen;
+
+// ------------------------------------------------------------------------------------------------
+// markers
+// ------------------------------------------------------------------------------------------------
+#[derive(Clone, Debug)]
+pub struct DeclMark {
+    pub id: usize,
+    pub kind: String,
+    pub parent: Option<usize>,
+    pub declby: Option<usize>,
+    pub elig: bool,
+    pub file: String,
+    pub line: u32,
+    pub col: u32,
+    pub name: String,
+    pub order: usize,
+}
+#[derive(Clone, Debug)]
+pub struct RefMark {
+    pub id: usize,
+    pub site: String,
+    pub file: String,
+    pub line: u32,
+    pub col: u32,
+    pub order: usize,
+}
+
+fn opt_id(s: &str) -> Option<usize> {
+    if s == "-" {
+        None
+    } else {
+        Some(s.parse().expect("marker id"))
+    }
+}
+
+/// Strips the markers; returns the clean text and the marks with (line, utf16 column) of the identifier after them.
+pub fn strip_markers(file: &str, text: &str, order0: usize) -> (String, Vec<DeclMark>, Vec<RefMark>) {
+    let mut out = String::with_capacity(text.len());
+    let mut decls = vec![];
+    let mut refs = vec![];
+    let (mut line, mut col) = (0u32, 0u32);
+    let chars: Vec<char> = text.chars().collect();
+    let mut i = 0;
+    let mut order = order0;
+    while i < chars.len() {
+        let c = chars[i];
+        if c == '@' {
+            let mut j = i + 1;
+            while chars[j] != '@' {
+                j += 1;
+            }
+            let body: String = chars[i + 1..j].iter().collect();
+            // identifier after the marker
+            let mut k = j + 1;
+            let mut name = String::new();
+            if k < chars.len() && (chars[k] == '\'' || chars[k] == '"') {
+                // character literal or operator symbol
+                let q = chars[k];
+                name.push(q);
+                k += 1;
+                while chars[k] != q {
+                    name.push(chars[k]);
+                    k += 1;
+                }
+                name.push(q);
+            } else {
+                while k < chars.len() && (chars[k].is_alphanumeric() || chars[k] == '_') {
+                    name.push(chars[k]);
+                    k += 1;
+                }
+            }
+            let f: Vec<&str> = body[1..].split(':').collect();
+            if body.starts_with('D') {
+                decls.push(DeclMark {
+                    id: f[0].parse().unwrap(),
+                    kind: f[1].to_string(),
+                    parent: opt_id(f[2]),
+                    declby: opt_id(f[3]),
+                    elig: f[4] == "1",
+                    file: file.to_string(),
+                    line,
+                    col,
+                    name,
+                    order,
+                });
+            } else {
+                refs.push(RefMark { id: f[0].parse().unwrap(), site: f[1].to_string(), file: file.to_string(), line, col, order });
+            }
+            order += 1;
+            i = j + 1;
+            continue;
+        }
+        out.push(c);
+        if c == '\n' {
+            line += 1;
+            col = 0;
+        } else {
+            col += c.len_utf16() as u32;
+        }
+        i += 1;
+    }
+    (out, decls, refs)
+}
+
+// ------------------------------------------------------------------------------------------------
+// recording searcher: the event list of the real traversal
+// ------------------------------------------------------------------------------------------------
+#[derive(Clone, Debug)]
+enum Ev {
+    Ref { file: String, line: u32, col: u32, id: Option<usize> },
+    Decl { id: Option<usize>, item: &'static str },
+}
+#[derive(Default)]
+struct Rec {
+    units: Vec<(usize, Vec<Ev>)>, // (token-context address, events) : one entry per traversed design unit
+}
+impl Rec {
+    fn cur(&mut self, ctx: &dyn TokenAccess) -> &mut Vec<Ev> {
+        let addr = ctx as *const dyn TokenAccess as *const () as usize;
+        if self.units.last().map(|u| u.0) != Some(addr) {
+            self.units.push((addr, vec![]));
+        }
+        &mut self.units.last_mut().unwrap().1
+    }
+}
+fn item_name(d: &DeclarationItem<'_>) -> &'static str {
+    use DeclarationItem::*;
+    match d {
+        Object(_) => "Object",
+        ElementDeclaration(_) => "ElementDeclaration",
+        EnumerationLiteral(..) => "EnumerationLiteral",
+        InterfaceObject(_) => "InterfaceObject",
+        InterfaceFile(_) => "InterfaceFile",
+        File(_) => "File",
+        Type(_) => "Type",
+        InterfaceType(_) => "InterfaceType",
+        InterfacePackage(_) => "InterfacePackage",
+        PhysicalTypePrimary(_) => "PhysicalTypePrimary",
+        PhysicalTypeSecondary(..) => "PhysicalTypeSecondary",
+        Component(_) => "Component",
+        Attribute(_) => "Attribute",
+        Alias(_) => "Alias",
+        SubprogramDecl(_) => "SubprogramDecl",
+        ReturnIdentifier(_) => "ReturnIdentifier",
+        Subprogram(_) => "Subprogram",
+        SubprogramInstantiation(_) => "SubprogramInstantiation",
+        Package(_) => "Package",
+        PackageBody(_) => "PackageBody",
+        PackageInstance(_) => "PackageInstance",
+        Configuration(_) => "Configuration",
+        Entity(_) => "Entity",
+        Architecture(_) => "Architecture",
+        Context(_) => "Context",
+        ForIndex(..) => "ForIndex",
+        ForGenerateIndex(..) => "ForGenerateIndex",
+        GenerateBody(_) => "GenerateBody",
+        ConcurrentStatement(_) => "ConcurrentStatement",
+        SequentialStatement(_) => "SequentialStatement",
+        View(_) => "View",
+    }
+}
+impl Searcher for Rec {
+    fn search_pos_with_ref(&mut self, ctx: &dyn TokenAccess, pos: &SrcPos, rf: &Reference) -> SearchState {
+        let ev = Ev::Ref {
+            file: pos.source.file_name().to_string_lossy().to_string(),
+            line: pos.range.start.line,
+            col: pos.range.start.character,
+            id: rf.get().map(|i| i.to_raw()),
+        };
+        self.cur(ctx).push(ev);
+        SearchState::NotFinished
+    }
+    fn search_decl(&mut self, ctx: &dyn TokenAccess, decl: FoundDeclaration<'_>) -> SearchState {
+        let ev = Ev::Decl { id: decl.ent_id().map(|i| i.to_raw()), item: item_name(&decl.ast) };
+        self.cur(ctx).push(ev);
+        SearchState::NotFinished
+    }
+}
+
+/// The kind classes of RH.Lint.DeadCode.kind
+fn kind_class(ent: EntRef<'_>) -> &'static str {
+    match ent.kind() {
+        AnyEntKind::Design(Design::Package(..)) => "pkg",
+        AnyEntKind::Design(Design::UninstPackage(..)) => "upkg",
+        AnyEntKind::Design(_) => "design",
+        AnyEntKind::Concurrent(..) => "conc",
+        AnyEntKind::Sequential(_) => "seq",
+        AnyEntKind::LoopParameter(..) => "loop",
+        AnyEntKind::ElementDeclaration(..) => "elem",
+        AnyEntKind::Overloaded(Overloaded::EnumLiteral(..)) => "enum",
+        AnyEntKind::Overloaded(Overloaded::InterfaceSubprogram(..)) => "isub",
+        AnyEntKind::Overloaded(Overloaded::SubprogramDecl(..)) => "sdecl",
+        AnyEntKind::Overloaded(_) => "over",
+        AnyEntKind::Object(o) => {
+            if o.iface.is_some() {
+                "iobj"
+            } else {
+                "obj"
+            }
+        }
+        AnyEntKind::Component(..) => "comp",
+        AnyEntKind::Type(Type::Protected(..)) => "prot",
+        AnyEntKind::Type(_) => "type",
+        _ => "other",
+    }
+}
+
+struct EntTable<'a> {
+    by_raw: HashMap<usize, EntRef<'a>>,
+}
+impl<'a> EntTable<'a> {
+    fn add(&mut self, e: EntRef<'a>) {
+        if self.by_raw.insert(e.id().to_raw(), e).is_some() {
+            return;
+        }
+        if let Some(p) = e.parent {
+            self.add(p);
+        }
+        if let Related::DeclaredBy(o) = e.related {
+            self.add(o);
+        }
+    }
+}
+
+fn pos_json(p: &SrcPos) -> Value {
+    json!([p.source.file_name().to_string_lossy(), p.range.start.line, p.range.start.character])
+}
+
+/// Real events of the whole project grouped by design unit; entities referenced by them.
+/// Returns JSON: {"units":[{"design":[file,line,col] | null, "events":[...]}], "ents":{raw:{kind,parent,rel,relto,pos}}}
+fn real_events(p: &Project, files: &[String]) -> Value {
+    let mut rec = Rec::default();
+    p.search(&mut rec);
+    let mut tab = EntTable { by_raw: HashMap::new() };
+    for f in files {
+        if let Some(src) = p.get_source(Path::new(f)) {
+            for (_pos, ent) in p.find_all_entity_references(&src) {
+                tab.add(ent);
+            }
+        }
+    }
+    let fileset: std::collections::HashSet<&String> = files.iter().collect();
+    let mut units = vec![];
+    let mut used: BTreeMap<usize, ()> = BTreeMap::new();
+    for (_addr, evs) in rec.units.iter() {
+        // a unit belongs to our files if its design-unit declaration is there
+        let mut design: Option<&SrcPos> = None;
+        let mut foreign = false;
+        for ev in evs {
+            if let Ev::Decl { id: Some(raw), item } = ev {
+                if matches!(*item, "Entity" | "Architecture" | "Package" | "PackageBody" | "Configuration" | "Context" | "PackageInstance")
+                {
+                    match tab.by_raw.get(raw).and_then(|e| e.decl_pos.as_ref()) {
+                        Some(pos) => {
+                            if design.is_none() {
+                                design = Some(pos);
+                            }
+                        }
+                        None => {
+                            if design.is_none() {
+                                foreign = true;
+                            }
+                        }
+                    }
+                    break;
+                }
+            }
+        }
+        let design = match design {
+            Some(d) if !foreign && fileset.contains(&d.source.file_name().to_string_lossy().to_string()) => d,
+            _ => continue,
+        };
+        let mut jev = vec![];
+        for ev in evs {
+            match ev {
+                Ev::Ref { file, line, col, id } => {
+                    if let Some(raw) = id {
+                        used.insert(*raw, ());
+                    }
+                    jev.push(json!({"t":"R","file":file,"line":line,"col":col,"id":id}));
+                }
+                Ev::Decl { id, item } => {
+                    if let Some(raw) = id {
+                        used.insert(*raw, ());
+                    }
+                    jev.push(json!({"t":"D","id":id,"item":item}));
+                }
+            }
+        }
+        units.push(json!({"design": pos_json(design), "events": jev}));
+    }
+    // entity table: everything used + closure over parent / DeclaredBy
+    let mut ents = serde_json::Map::new();
+    let mut todo: Vec<usize> = used.keys().cloned().collect();
+    while let Some(raw) = todo.pop() {
+        if ents.contains_key(&raw.to_string()) {
+            continue;
+        }
+        match tab.by_raw.get(&raw) {
+            Some(e) => {
+                let (rel, relto) = match e.related {
+                    Related::DeclaredBy(o) => ("D", Some(o.id().to_raw())),
+                    Related::None => ("N", None),
+                    _ => ("O", None),
+                };
+                if let Some(p) = e.parent {
+                    todo.push(p.id().to_raw());
+                }
+                if let Some(r) = relto {
+                    todo.push(r);
+                }
+                ents.insert(
+                    raw.to_string(),
+                    json!({"kind": kind_class(e), "parent": e.parent.map(|p| p.id().to_raw()), "rel": rel, "relto": relto,
+                           "pos": e.decl_pos.as_ref().map(pos_json), "desc": e.describe()}),
+                );
+            }
+            None => {
+                ents.insert(raw.to_string(), json!({"kind":"unknown","parent":null,"rel":"N","relto":null,"pos":null,"desc":"?"}));
+            }
+        }
+    }
+    json!({"units": units, "ents": ents})
+}
+
+fn diags_json(ds: &[vhdl_lang::Diagnostic]) -> Value {
+    Value::Array(
+        ds.iter()
+            .map(|x| {
+                json!({"file": x.pos.source.file_name().to_string_lossy(), "l1": x.pos.range.start.line, "c1": x.pos.range.start.character,
+                   "l2": x.pos.range.end.line, "c2": x.pos.range.end.character, "code": format!("{:?}", x.code), "msg": x.message})
+            })
+            .collect(),
+    )
+}
+
+fn make_config(dir: &str, libfiles: &BTreeMap<String, Vec<String>>, third_party: &dyn Fn(&str) -> bool) -> Config {
     let mut msgs = NullMessages;
     let mut cfg = Config::default();
     cfg.load_external_config(&mut msgs, Some("/repo/vhdl_libraries".to_string()));
-    let toml = format!("[libraries]\nlib.files=[{}]\n", files.iter().map(|n| format!("'{}'", n)).collect::<Vec<_>>().join(","));
-    cfg.append(&Config::from_str(&toml, Path::new("/")).unwrap(), &mut msgs);
+    let mut toml = String::from("[libraries]\n");
+    for (lib, files) in libfiles {
+        toml.push_str(&format!(
+            "{}.files=[{}]\n",
+            lib,
+            files.iter().map(|n| format!("'{}'", n)).collect::<Vec<_>>().join(",")
+        ));
+        if third_party(lib) {
+            toml.push_str(&format!("{}.is_third_party=true\n", lib));
+        }
+    }
+    cfg.append(&Config::from_str(&toml, Path::new(dir)).expect("config"), &mut msgs);
+    cfg
+}
+
+/// Runs one project: returns {"steps":[{"what":..,"tp":{lib:bool},"diags":[..],"real":{..}}], "marks":{...}}
+fn run_project(pj: &Value, workdir: &str) -> Value {
+    let pid = pj["id"].as_str().unwrap();
+    let dir = format!("{}/{}", workdir, pid);
+    let _ = std::fs::remove_dir_all(&dir);
+    std::fs::create_dir_all(&dir).unwrap();
+    let mut libfiles: BTreeMap<String, Vec<String>> = BTreeMap::new();
+    libfiles.insert("lib".into(), vec![]);
+    libfiles.insert("tp".into(), vec![]);
+    let mut all_files = vec![];
+    let mut marks = vec![]; // per group: {"gid","lib","v0":{decls,refs},"v1":...}
+    let mut edits: Vec<(String, String)> = vec![];
+    for g in pj["groups"].as_array().unwrap() {
+        let lib = g["lib"].as_str().unwrap().to_string();
+        let mut gm = json!({"gid": g["gid"], "lib": lib});
+        for (ver, key) in [(0, "files"), (1, "edit")] {
+            if g[key].is_null() {
+                continue;
+            }
+            let mut decls = vec![];
+            let mut refs = vec![];
+            let mut order = 0;
+            let mut fnames = vec![];
+            for f in g[key].as_array().unwrap() {
+                let name = f[0].as_str().unwrap();
+                let path = format!("{}/{}", dir, name);
+                let (clean, d, r) = strip_markers(&path, f[1].as_str().unwrap(), order);
+                order += d.len() + r.len();
+                if ver == 0 {
+                    std::fs::write(&path, &clean).unwrap();
+                    libfiles.get_mut(&lib).unwrap().push(name.to_string());
+                    all_files.push(path.clone());
+                } else {
+                    edits.push((path.clone(), clean));
+                }
+                fnames.push(path);
+                decls.extend(d);
+                refs.extend(r);
+            }
+            gm[format!("v{}", ver)] = json!({
+                "files": fnames,
+                "decls": decls.iter().map(|d| json!({"id":d.id,"kind":d.kind,"parent":d.parent,"declby":d.declby,"elig":d.elig,
+                    "file":d.file,"line":d.line,"col":d.col,"name":d.name,"order":d.order})).collect::<Vec<_>>(),
+                "refs": refs.iter().map(|r| json!({"id":r.id,"site":r.site,"file":r.file,"line":r.line,"col":r.col,"order":r.order})).collect::<Vec<_>>(),
+            });
+        }
+        marks.push(gm);
+    }
+    let mut steps = vec![];
+    let mut msgs = NullMessages;
+    let cfg = make_config(&dir, &libfiles, &|l| l == "tp");
     let mut p = Project::from_config(cfg, &mut msgs);
     p.enable_all_linters();
-    for x in p.analyse() {
-        println!("{} {}:{}-{}:{} {:?} {}", x.pos.source.file_name().display(), x.pos.range.start.line, x.pos.range.start.character, x.pos.range.end.line, x.pos.range.end.character, x.code, x.message);
+    let d0 = p.analyse();
+    steps.push(json!({"what":"initial","tp":{"lib":false,"tp":true},"diags":diags_json(&d0),"real":real_events(&p, &all_files)}));
+    if !edits.is_empty() {
+        for (path, text) in &edits {
+            let src = p.get_source(Path::new(path)).unwrap_or_else(|| Source::inline(Path::new(path), text));
+            src.change(None, text);
+            p.update_source(&src);
+        }
+        let d1 = p.analyse();
+        steps.push(json!({"what":"edit","tp":{"lib":false,"tp":true},"diags":diags_json(&d1),"real":real_events(&p, &all_files)}));
+    }
+    if pj["flip"].as_bool().unwrap_or(false) {
+        let cfg = make_config(&dir, &libfiles, &|l| l == "lib");
+        p.update_config(cfg, &mut msgs);
+        let d2 = p.analyse();
+        steps.push(json!({"what":"flip","tp":{"lib":true,"tp":false},"diags":diags_json(&d2),"real":real_events(&p, &all_files)}));
+    }
+    let _ = std::fs::remove_dir_all(&dir);
+    json!({"id": pid, "dir": dir, "marks": marks, "steps": steps})
+}
+
+fn main() {
+    let args: Vec<String> = std::env::args().collect();
+    std::panic::set_hook(Box::new(|_| {}));
+    match args[1].as_str() {
+        "gen" => {
+            let seed: u64 = args[2].parse().unwrap();
+            let np: usize = args[3].parse().unwrap();
+            let gpp: usize = args[4].parse().unwrap();
+            let mut out = std::io::BufWriter::new(std::fs::File::create(&args[5]).unwrap());
+            for pi in 0..np {
+                let pj = gen::gen_project(seed, pi, gpp);
+                writeln!(out, "{}", pj).unwrap();
+            }
+        }
+        "run" => {
+            let inp = std::io::BufReader::new(std::fs::File::open(&args[2]).unwrap());
+            let workdir = &args[3];
+            let mut out = std::io::BufWriter::new(std::fs::File::create(&args[4]).unwrap());
+            for line in inp.lines() {
+                let line = line.unwrap();
+                if line.trim().is_empty() {
+                    continue;
+                }
+                let pj: Value = serde_json::from_str(&line).expect("project json");
+                let r = std::panic::catch_unwind(|| run_project(&pj, workdir));
+                match r {
+                    Ok(v) => writeln!(out, "{}", v).unwrap(),
+                    Err(_) => writeln!(out, "{}", json!({"id": pj["id"], "panic": true})).unwrap(),
+                }
+            }
+        }
+        "dump" => {
+            // plain files (markers allowed) in library lib: print diagnostics, events, entities
+            let dir = "/verif/.cache/scratch/C19/dump";
+            let mut files = vec![];
+            for (i, f) in args[2..].iter().enumerate() {
+                let text = std::fs::read_to_string(f).unwrap();
+                files.push(json!([format!("f{}.vhd", i), text]));
+            }
+            let pj = json!({"id":"dump","groups":[{"gid":0,"lib":"lib","files":files,"edit":null}],"flip":false});
+            let r = run_project(&pj, dir);
+            for d in r["steps"][0]["diags"].as_array().unwrap() {
+                println!("DIAG {}:{} {} {}", d["l1"], d["c1"], d["code"], d["msg"]);
+            }
+            let real = &r["steps"][0]["real"];
+            let ents = real["ents"].as_object().unwrap();
+            let show = |id: &Value| -> String {
+                match id.as_u64() {
+                    Some(raw) => {
+                        let e = &ents[&raw.to_string()];
+                        format!("{} [{} @{}]", e["desc"].as_str().unwrap_or("?"), e["kind"].as_str().unwrap(), e["pos"])
+                    }
+                    None => "-".to_string(),
+                }
+            };
+            for u in real["units"].as_array().unwrap() {
+                println!("UNIT {}", u["design"]);
+                for ev in u["events"].as_array().unwrap() {
+                    if ev["t"] == "R" {
+                        println!("  R {}:{} -> {}", ev["line"], ev["col"], show(&ev["id"]));
+                    } else {
+                        println!("  D {} {}", ev["item"].as_str().unwrap(), show(&ev["id"]));
+                    }
+                }
+            }
+            for (raw, e) in ents {
+                println!("ENT {} {} parent={} rel={} relto={} pos={}", raw, e["desc"], e["parent"], e["rel"], e["relto"], e["pos"]);
+            }
+        }
+        _ => panic!("usage"),
     }
 }
